@@ -248,7 +248,7 @@ async def site_ranges(r, n) -> list[Case]:
                 for d in dirs:
                     got = str(int(wf.has_regular_output_under(d + "/")))
                     exp = under(d + "/", outs)
-                    out.append(Case("has_regular_output_under", f"c18 range {hexs(d + '/')} {hexlist(outs)}",
+                    out.append(Case("has_regular_output_under", f"c18 target {hexs(d + '/')} {hexlist(outs)}",
                                     got, {"dir": d + "/", "outputs": outs}, ("nonempty", exp)))
                 # UPDATE_CHECK_AFTER directory arm: DEFAULT producers in range become TARGET
                 sched._update_meta_safe()
@@ -261,7 +261,7 @@ async def site_ranges(r, n) -> list[Case]:
                 for td in tdirs:
                     sel = under(td, elevated)
                     other = [l for l in elevated if not any(l in under(t, elevated) for t in tdirs)]
-                    out.append(Case("update_check_after_dir", f"c18 range {hexs(td)} {hexlist(outs)}",
+                    out.append(Case("update_check_after_dir", f"c18 target {hexs(td)} {hexlist(outs)}",
                                     canon(sel), {"dir": td, "outputs": outs, "elevated": elevated},
                                     ("set", under(td, outs))))
                     if other:
@@ -277,7 +277,7 @@ async def site_ranges(r, n) -> list[Case]:
                 # steps whose implied need is TARGET are flagged too (first statement of reconcile)
                 for td in tdirs:
                     sel = under(td, flagged)
-                    out.append(Case("reconcile_target_dirs", f"c18 range {hexs(td)} {hexlist(outs)}",
+                    out.append(Case("reconcile_target_dirs", f"c18 target {hexs(td)} {hexlist(outs)}",
                                     canon(sel), {"dir": td, "outputs": outs, "flagged": flagged},
                                     ("set", under(td, outs))))
                 stray = [l for l in flagged if not any(l in under(t, flagged) for t in tdirs)]
